@@ -17,7 +17,9 @@ def _split_event(e: Event, dt: datetime) -> Tuple[Event, Optional[Event]]:
         e2 = deepcopy(e)
         e1.duration = dt - e.timestamp
         e2.timestamp = dt
-        e2.duration = (e.timestamp + e.duration) - dt
+        # timestamps have millisecond resolution: measure from where e2 really starts,
+        # so that it ends where e ended
+        e2.duration = (e.timestamp + e.duration) - e2.timestamp
         return (e1, e2)
     else:
         return (e, None)
